@@ -3,7 +3,9 @@ package rules
 import (
 	"fmt"
 	"go/ast"
+	"go/constant"
 	"go/types"
+	"strings"
 
 	"lachk/core"
 )
@@ -162,4 +164,201 @@ func c33yieldsRecord(g *core.FuncInfo, view *c33view, e ast.Expr) bool {
 		}
 	}
 	return true
+}
+
+// ---------------------------------------------------------------------------
+// inlined view of the roots-cache operations
+//
+// A use of cache.FrameRoots may be written in place (`s.cache.FrameRoots.Get(frame)`) or through a
+// small accessor method of the store that does nothing else with the cache: one Get/Add/Remove whose
+// key (and value) are the accessor's own unassigned parameters. An accessor call is then the cache
+// operation itself, with the caller's arguments as key and value; a Get accessor hands back the
+// type-asserted list together with the comma-ok flag.
+
+type c33op struct {
+	Op     string
+	Site   *core.CallSite // the call in the using function (the cache call or the accessor call)
+	Key    ast.Expr       // expressions of the using function
+	Val    ast.Expr
+	ValVar *types.Var // comma-ok variables of a Get in the using function
+	OkVar  *types.Var
+	Typed  bool // ValVar already holds the asserted list (the accessor asserts the type)
+	Helper *core.FuncInfo
+}
+
+type c33acc struct {
+	op             string
+	keyIdx, valIdx int
+}
+
+// c33accessor: is h a pure accessor of the roots cache (see above)?
+func c33accessor(h *core.FuncInfo) (c33acc, bool) {
+	none := c33acc{}
+	if h == nil || h.Recv() == nil || h.Obj == nil || len(allLits(h)) != 0 {
+		return none, false
+	}
+	var calls []*core.CallSite
+	for _, cs := range h.Calls() {
+		if strings.HasPrefix(cs.Name, c33LRU) && cs.Recv() != nil && fieldNameOf(h, cs.Recv()) == c33Cache {
+			calls = append(calls, cs)
+		}
+	}
+	if len(calls) != 1 {
+		return none, false
+	}
+	cs := calls[0]
+	if cs.InDefer || cs.InGo || h.CanReach(cs.Pt, cs.Pt) {
+		return none, false
+	}
+	// the cache field is mentioned by that call only (a local holding the field would be another mention)
+	nMention := 0
+	h.InspectOwn(func(n ast.Node) bool {
+		if sel, ok := n.(*ast.SelectorExpr); ok {
+			if s, ok := h.Info().Selections[sel]; ok {
+				if v, ok := s.Obj().(*types.Var); ok && v.IsField() && h.P.FieldName(v) == c33Cache {
+					nMention++
+				}
+			}
+		}
+		return true
+	})
+	if nMention != 1 {
+		return none, false
+	}
+	param := func(e ast.Expr) int {
+		v := varOf(h, e)
+		if v == nil || len(assignsToVar(h, v)) != 0 {
+			return -1
+		}
+		return c24paramIndex(h, v)
+	}
+	op := cs.Name[len(c33LRU):]
+	acc := c33acc{op: op, keyIdx: -1, valIdx: -1}
+	if len(cs.Call.Args) >= 1 {
+		acc.keyIdx = param(cs.Call.Args[0])
+	}
+	if acc.keyIdx < 0 {
+		return none, false
+	}
+	always := func() bool {
+		_, skip := core.PathQuery{F: h, From: h.Entry(), Avoid: core.PointSet(cs.Pt), TargetExit: true}.Find()
+		return !skip
+	}
+	switch op {
+	case "Add":
+		if len(cs.Call.Args) != 3 {
+			return none, false
+		}
+		acc.valIdx = param(cs.Call.Args[1])
+		if acc.valIdx < 0 || !always() {
+			return none, false
+		}
+		return acc, true
+	case "Remove":
+		if len(cs.Call.Args) != 1 || !always() {
+			return none, false
+		}
+		return acc, true
+	case "Get":
+		if len(cs.Call.Args) != 1 {
+			return none, false
+		}
+		val, okv := c33commaOK(h, cs.Call)
+		if val == nil || okv == nil || len(assignsToVar(h, val)) != 1 || len(assignsToVar(h, okv)) != 1 {
+			return none, false
+		}
+		rets := h.ReturnPoints()
+		if len(rets) == 0 {
+			return none, false
+		}
+		isAsserted := func(e ast.Expr) bool {
+			e = ast.Unparen(e)
+			if lv := varOf(h, e); lv != nil && lv != val {
+				if d := c33singleDef(h, lv); d != nil && d.RHS != nil {
+					e = ast.Unparen(d.RHS)
+				}
+			}
+			ta, ok := e.(*ast.TypeAssertExpr)
+			return ok && varOf(h, ta.X) == val
+		}
+		for _, rp := range rets {
+			r := rp.Node().(*ast.ReturnStmt)
+			if len(r.Results) != 2 {
+				return none, false
+			}
+			hit, _ := h.GuardedBy(rp, c33boolFact(h, okv, true))
+			miss, _ := h.GuardedBy(rp, c33boolFact(h, okv, false))
+			flag := ast.Unparen(r.Results[1])
+			switch cv, isC := core.ConstVal(h.Info(), flag); {
+			case isC && cv.Kind() == constant.Bool && constant.BoolVal(cv):
+				if !hit {
+					return none, false
+				}
+			case isC && cv.Kind() == constant.Bool:
+				if !miss {
+					return none, false
+				}
+			case varOf(h, flag) == okv:
+			default:
+				return none, false
+			}
+			if !miss && !isAsserted(r.Results[0]) {
+				return none, false
+			}
+		}
+		return acc, true
+	}
+	return none, false
+}
+
+// c33cacheOps lists the cache operations `op` of f, in place or through an accessor called on f's
+// own receiver.
+func c33cacheOps(f *core.FuncInfo, op string) []c33op {
+	var out []c33op
+	for _, cs := range f.Calls() {
+		if cs.Name == c33LRU+op && cs.Recv() != nil && fieldNameOf(f, cs.Recv()) == c33Cache {
+			o := c33op{Op: op, Site: cs}
+			if len(cs.Call.Args) >= 1 {
+				o.Key = cs.Call.Args[0]
+			}
+			if op == "Add" && len(cs.Call.Args) >= 2 {
+				o.Val = cs.Call.Args[1]
+			}
+			if op == "Get" {
+				o.ValVar, o.OkVar = c33commaOK(f, cs.Call)
+			}
+			out = append(out, o)
+			continue
+		}
+		fn, ok := cs.Callee.(*types.Func)
+		if !ok || cs.InGo || cs.InDefer || f.Recv() == nil || cs.Recv() == nil || varOf(f, cs.Recv()) != f.Recv() {
+			continue
+		}
+		h := f.P.FuncOf(fn)
+		if h == nil || h == f {
+			continue
+		}
+		acc, isAcc := c33accessor(h)
+		if !isAcc || acc.op != op || acc.keyIdx >= len(cs.Call.Args) || acc.valIdx >= len(cs.Call.Args) {
+			continue
+		}
+		o := c33op{Op: op, Site: cs, Key: cs.Call.Args[acc.keyIdx], Helper: h}
+		if acc.valIdx >= 0 {
+			o.Val = cs.Call.Args[acc.valIdx]
+		}
+		if op == "Get" {
+			o.ValVar, o.OkVar = c33commaOK(f, cs.Call)
+			o.Typed = true
+		}
+		out = append(out, o)
+	}
+	return out
+}
+
+func c33opPoints(ops []c33op) []core.Point {
+	var out []core.Point
+	for _, o := range ops {
+		out = append(out, o.Site.Pt)
+	}
+	return out
 }
